@@ -126,10 +126,19 @@ def restore_renamed(tree: ast.Module, modname: str, baseline: Optional[Dict[str,
             continue
         parent_q = q.rsplit('.', 1)[0] if '.' in q else ''
         best, best_r, second = None, 0.0, 0.0
+        # a missing closure can only have been called from the function it was defined in
+        parent_fn = [f for q2, f, _, _ in scopes if q2 == parent_q]
+        called_in_parent = set()
+        for pf in parent_fn:
+            for n in ast.walk(pf):
+                if isinstance(n, ast.Call):
+                    called_in_parent.add(n.func.id if isinstance(n.func, ast.Name) else n.func.attr if isinstance(n.func, ast.Attribute) else '')
         for nq, fn, cls in new:
             if nq in used:
                 continue
             r = difflib.SequenceMatcher(None, want, _body_text(fn, fn.name)).ratio()
+            if parent_fn and any(fn.name == c or c.endswith(fn.name) for c in called_in_parent):
+                r += 0.15          # ... and this candidate is called from there
             if (nq.rsplit('.', 1)[0] if '.' in nq else '') == parent_q:
                 r += 0.05          # same class / same enclosing function
             if r > best_r:
